@@ -282,6 +282,7 @@ def exact_imposition(ctx):
     x = copy.copy(x)
     n = len(x)
     _mask = [m for m in mask if all(-n <= k < n for k in m)]
+    _mask = [m for m in (tuple(k % n for k in m) for m in _mask) if m[0] != m[1]]
     pairs = connected(_mask)
     pairs = pairs.items()
     for i,j in pairs:
